@@ -97,8 +97,9 @@ func main() {
 	}
 	extra := map[string]any{}
 	// self-test: positive controls
-	st := selfTest(r, *repo, *tier, seed)
-	extra["selftest"] = st
+	if os.Getenv("VERIF_NO_SELFTEST") == "" {
+		extra["selftest"] = selfTest(r, *repo, *tier, seed)
+	}
 	code := c.Finish(*verif, seed, start, extra)
 	os.Exit(code)
 }
